@@ -160,6 +160,42 @@ def std_items(*, nchans, nbits, fch1=1500.0, foff=-1.0, tsamp=1e-3, tstart=58000
     return items
 
 
+# registry of the input files synthesised during the current case: path -> (size, crc).  The driver audits it after every
+# case of the monitors that opt in (AUDIT_INPUT_FILES): no library call may change a file it was only asked to read.
+_INPUTS: dict[str, tuple[int, int]] = {}
+
+
+def _digest(path: str) -> tuple[int, int]:
+    import zlib
+
+    crc, size = 0, 0
+    with open(path, "rb") as fh:
+        while True:
+            b = fh.read(1 << 22)
+            if not b:
+                break
+            crc = zlib.crc32(b, crc)
+            size += len(b)
+    return size, crc
+
+
+def register_input(path: str) -> None:
+    _INPUTS[path] = _digest(path)
+
+
+def forget_inputs() -> None:
+    _INPUTS.clear()
+
+
+def audit_inputs() -> list[str]:
+    """Paths of registered input files that still exist but no longer hold the bytes that were written."""
+    bad = []
+    for path, dig in _INPUTS.items():
+        if os.path.exists(path) and _digest(path) != dig:
+            bad.append(path)
+    return bad
+
+
 def write_fil(path: str, X: np.ndarray, nbits: int, **hdr) -> tuple[int, int]:
     """Write one SIGPROC file; returns (hdrlen, datalen)."""
     X = np.asarray(X)
@@ -169,6 +205,7 @@ def write_fil(path: str, X: np.ndarray, nbits: int, **hdr) -> tuple[int, int]:
     with open(path, "wb") as fh:
         fh.write(h)
         fh.write(d)
+    register_input(path)
     return len(h), len(d)
 
 
